@@ -36,6 +36,9 @@ inductive Cmd where
   | metrics (d ch : Nat)
   | verify (d : Nat) (inst : BList) (ms : Nat)
   | ipint (d secs : Nat)
+  /-- `register d ty inst host port ips props probe addrauto` (IP addresses as text) -/
+  | register (d : Nat) (ty inst host : BList) (port : Nat) (ips : List String)
+      (props : List (BList × Option BList)) (probe addrAuto : Bool)
   | other (toks : List String)
   deriving Repr, Inhabited
 
@@ -45,6 +48,21 @@ def pIface : P Iface := fun ts => do
   let (ip, ts) ← P.tok ts
   let (p, ts) ← P.nat ts
   pure ({ name, index, ip, prefixLen := p }, ts)
+
+def pRegister : P Cmd := fun ts => do
+  let (d, ts) ← P.nat ts
+  let (ty, ts) ← P.hex ts
+  let (inst, ts) ← P.hex ts
+  let (host, ts) ← P.hex ts
+  let (port, ts) ← P.nat ts
+  let (ips, ts) ← P.list P.tok ts
+  let (props, ts) ← P.list (fun ts => do
+    let (k, ts) ← P.hex ts
+    let (v, ts) ← P.opt P.hex ts
+    pure ((k, v), ts)) ts
+  let (probe, ts) ← P.bool ts
+  let (auto, ts) ← P.bool ts
+  pure (.register d ty inst host port ips props probe auto, ts)
 
 def parseCmd (ts : List String) : Cmd :=
   let r : Option Cmd :=
@@ -74,6 +92,7 @@ def parseCmd (ts : List String) : Cmd :=
     | ["metrics", d, ch] => do pure (.metrics (← d.toNat?) (← ch.toNat?))
     | ["verify", d, i, ms] => do pure (.verify (← d.toNat?) (← bytesOfHex i) (← ms.toNat?))
     | ["ipint", d, s] => do pure (.ipint (← d.toNat?) (← s.toNat?))
+    | "register" :: ts => (pRegister ts).bind fun (c, rest) => if rest.isEmpty then some c else none
     | _ => none
   r.getD (.other ts)
 
